@@ -83,3 +83,31 @@ void* raw(size_t n)                    /* R16.5 */
 {
   return malloc(n);
 }
+
+/* R16.6: reference counting */
+typedef struct THING { int xrefs; } THING;
+void thing_acquire(THING* t) { t->xrefs++; }
+int thing_release(THING* t) { t->xrefs--; if (t->xrefs > 0) return 0; yr_free(t); return 0; }
+int wrap_good(THING* t, int n)
+{
+  void* p;
+  thing_acquire(t);
+  p = yr_malloc(n);
+  if (p == NULL)
+  {
+    thing_release(t);
+    return ERROR_INSUFFICIENT_MEMORY;
+  }
+  yr_free(p);
+  return ERROR_SUCCESS;
+}
+int wrap_bad(THING* t, int n)
+{
+  void* p;
+  thing_acquire(t);
+  p = yr_malloc(n);
+  if (p == NULL)
+    return ERROR_INSUFFICIENT_MEMORY;
+  yr_free(p);
+  return ERROR_SUCCESS;
+}
